@@ -70,6 +70,22 @@ impl SecondaryTransaction {
     ) -> StorageResult<Self> {
         // pin a snapshot at version manager
         let pin_version = table.version.pin();
+        #[cfg(feature = "verif")]
+        crate::verif::point(format!(
+            "txn.pinned(t{},ro={},upd={})",
+            table.table_id(),
+            read_only,
+            update
+        ))
+        .await;
+        #[cfg(feature = "verif")]
+        let verif_delete_lock = if update {
+            let guard = table.lock_for_deletion().await;
+            crate::verif::point(format!("txn.locked(t{})", table.table_id())).await;
+            Some(guard)
+        } else {
+            None
+        };
         Ok(Self {
             finished: false,
             mem: None,
@@ -77,6 +93,9 @@ impl SecondaryTransaction {
             table: table.clone(),
             version: table.version.clone(),
             snapshot: pin_version.snapshot.clone(),
+            #[cfg(feature = "verif")]
+            delete_lock: verif_delete_lock,
+            #[cfg(not(feature = "verif"))]
             delete_lock: if update {
                 Some(table.lock_for_deletion().await)
             } else {
@@ -118,6 +137,8 @@ impl SecondaryTransaction {
     }
 
     async fn commit_inner(mut self) -> StorageResult<()> {
+        #[cfg(feature = "verif")]
+        crate::verif::point(format!("txn.commit(t{})", self.table.table_id())).await;
         self.flush_rowset().await?;
 
         // flush deletes to disk
